@@ -206,6 +206,59 @@ def run(chk):
         chk.count("sessions_values_%s" % family)
     shutil.rmtree(d, ignore_errors=True)
 
+    # ---- a run recorded in TWO data files with different content: the file loaded first holds only the later part
+    d = session.scratch_dir()
+    ntwo = 6 if tier == "quick" else 40
+    for i in range(ntwo):
+        for fn in ("nightly.data", "quick.data"):
+            if os.path.exists(os.path.join(d, fn)):
+                os.remove(os.path.join(d, fn))
+        ninv = rng.randint(2, 4)
+        per_inv = [[round(rng.uniform(1, 5000), 3) for _ in range(rng.randint(1, 5))] for _ in range(ninv)]
+        warmup = rng.choice([0, 0, 1])
+        raw = raw_config([RunSpec("B0", invocations=ninv, warmup=warmup)])
+        ex = raw["experiments"]["X"]
+        # Nightly is listed (and its file loaded) first; Quick alone is executed first and interrupted
+        raw["experiments"] = {"Nightly": dict(ex, data_file=os.path.join(d, "nightly.data")), "Quick": dict(ex, data_file=os.path.join(d, "quick.data"))}
+        cut = rng.randint(1, ninv - 1)
+
+        class Stop2(BaseException):
+            pass
+
+        def script2(bench, k, inv):
+            return 0, rebench_log(per_inv[inv - 1])
+
+        def script2_cut(bench, k, inv):
+            if inv > cut:
+                raise Stop2()
+            return 0, rebench_log(per_inv[inv - 1])
+        try:
+            run_session(raw, script2_cut, os.path.join(d, "unused.data"), exp_name="Quick")
+        except Stop2:
+            pass
+        second = run_session(raw, script2, os.path.join(d, "unused.data"))      # both experiments: completes the run, records into both files
+        third = run_session(raw, script2, os.path.join(d, "unused.data"))       # everything reloaded, from two files of different content
+        expect = [v for inv in per_inv for v in inv[warmup:]]
+        case = dict(invocations=ninv, warmup=warmup, per_invocation=per_inv, quick_data_recorded_invocations=cut,
+                    files="nightly.data (loaded first) holds invocations %d..%d only, quick.data all" % (cut + 1, ninv))
+        for label, ses in (("completing session", second), ("reloading session", third)):
+            if isinstance(ses.result, str):
+                chk.violation("C15 a session on a run recorded in two data files ends without an exception", case, "no exception", ses.result)
+                break
+            st = ses.runs["B0"]["stats"]
+            if expect:
+                n, mean, var, mn, mx = exact_stats(expect)
+                if st.num_samples != n or abs(st.mean - float(mean)) > 5e-7 + 1e-9 * float(mean) or abs(st.min - mn) > 5e-7 or abs(st.max - mx) > 5e-7 \
+                        or abs(st.std_dev - math.sqrt(var)) > 1e-5 + 1e-6 * math.sqrt(var):
+                    chk.violation("C15 statistics of a run reloaded from two data files with different content (%s)" % label, case,
+                                  [n, float(mean), math.sqrt(var), mn, mx], [st.num_samples, st.mean, st.std_dev, st.min, st.max])
+                    break
+        if not isinstance(third.result, str) and third.starts:
+            chk.violation("C15 reload: completed run not restarted", case, [], third.starts)
+        chk.case(("two-files", i))
+    chk.count("sessions_run_in_two_data_files", ntwo)
+    shutil.rmtree(d, ignore_errors=True)
+
     try:
         res = core.coq_eval(IMPORTS, exprs, chk.scratch, chunk=40)
     except core.BuildError as exc:
